@@ -211,7 +211,8 @@ def _dispatch(ctx, case):
 
 
 from vlib import envmodes  # noqa: E402
-evaluate = envmodes.with_modes(_dispatch, warn=lambda case: case.get('kind') != 'far', share_warn=4)
+evaluate = envmodes.with_modes(_dispatch, warn=lambda case: case.get('kind') != 'far', share_warn=4,
+                               debug=lambda case: case.get('kind') != 'far')
 
 
 def no_structure_specs(rng):
@@ -250,7 +251,7 @@ def run(ctx):
             data, _t = ig.build(spec)
             scheds = [[k, (list(range(1, len(data))) if c == 'ALL1' else sl.fixed(len(data), int(c[1:])) if isinstance(c, str) else c)]
                       for k, c in scheds]
-            eval_case(ctx, {'spec': spec, 'expect': expect, 'schedules': scheds, 'wrapper': False})
+            evaluate(ctx, {"spec": spec, "expect": expect, "schedules": scheds, "wrapper": False})
     n_images = ctx.pick(1400, 20000)
     nsched = ctx.pick(6, 14)
     fmts = ['qcow2', 'vhd', 'vdi', 'iso', 'vmdk', 'vhdx', 'vhdx', 'luks', 'gpt', 'mbr', 'raw']
@@ -305,7 +306,7 @@ def run(ctx):
             scheds = [[k, c] for k, c in sl.schedules(crng, len(data), truth['bounds'] + [64, 512], 5, max_chunks=3000)]
             ctx.sample('no-structure/%s' % spec['gen'], {'spec': spec})
             ctx.h('no-structure class', spec['gen'] + ('/trunc' if spec.get('mut') else ''))
-            eval_case(ctx, {'spec': spec, 'expect': 'zero', 'schedules': scheds, 'wrapper': False})
+            evaluate(ctx, {"spec": spec, "expect": "zero", "schedules": scheds, "wrapper": False})
 
 
 def bucket(n):
